@@ -23,6 +23,10 @@ CLAIMED = {
    text="serviceImpl's object table under the monitor rule: Remove is verified to delete exactly the named object from both the object map and the mailbox map inside one critical section, call its OnTerminate exactly once, leave every other entry unchanged, and to change nothing for an unknown id; Receive answers a message for an id without mailbox with exactly one error reply; Add reserves an id that is free at reservation time and leaves nothing behind when activation fails; Terminate keeps the lock discipline; every access to the two maps carries a guard obligation (lock held in the right mode) and every Lock/Unlock a lock-state obligation.",
    note="Effects are stated at the linearization point (at_lock/at_unlock snapshots of the single critical section); all interleavings follow by the monitor rule (assumption). Actor/Channel methods are abstract collaborators with ghost call counters. objectImpl.Terminate -> Service.Remove plumbing, signalHandler.OnTerminate (subscribers told) and clientService (service_reference.go) are not yet under contract.",
    technique="contract-based deductive verification with lock-protected (monitor) invariants, SMT", ref="7 C16"),
+ "C17": dict(level="proof",
+   text="endPoint's handler table under the monitor rule on handlersMutex: the table invariant (every live slot holds a never-closed handler with an open queue, registered in exactly that slot; hence distinct slots hold distinct handlers and queues) is assumed at every Lock and proved at every Unlock of MakeHandler, RemoveHandler, dispatch and closeWith. Handler.closeWith requires 'not yet closed' and ensures 'closed once, closer then queue close'; RemoveHandler/dispatch(keep=false)/closeWith remove a handler from the table in the same critical section in which it is closed (so it is closed at most once and never sent to afterwards: every select-send carries a 'queue not closed' obligation); MakeHandler returns a slot that was free; removing an unknown id is an error that changes nothing.",
+   note="Schedules only through the monitor rule. Assumed: Filter/Closer callbacks respect the documented restriction (do not add/remove handlers, do not touch queues); queues are not shared between handlers (MakeHandler precondition); goroutine spawned by closeWith performs the close (permission transfer at spawn). Deadlock freedom of closers and 'shutdown eventually happens' are not decided.",
+   technique="contract-based deductive verification with lock-protected (monitor) invariants and ghost close counters, SMT", ref="7 C17"),
 }
 
 NOT_APPLICABLE = {
